@@ -644,8 +644,8 @@ def oracle(case, r):
 
 
 def oracle_on_case(ctx: Ctx, case, verbose=False):
-    if case.get("op") == "e2e":
-        v = e2e_eval(case)
+    if case.get("op") in ("e2e", "e2e_multi"):
+        v = e2e_eval(case) if case["op"] == "e2e" else e2e_multi_eval(case)
         if v:
             ctx.violation(v[0], v[1], case)
         return {"e2e": v}
@@ -721,6 +721,44 @@ def e2e_eval(case):
     return None
 
 
+def e2e_multi_eval(case):
+    """several ranks sampled over overlapping wall-clock ranges: the statistics pool the ranks' timelines (each
+    period lies between two consecutive samples of ONE rank).  Decided here: the partition clause on the pooled
+    timeline - dur_total(with) + dur_total(without) = sum over the ranks of their sampled time, and the two
+    time-weighted averages carry the pooled energy - against the Power counters of the exported trace."""
+    from props import c10
+    files, _truth = c10.e2e_inputs({"seed": case["seed"], "R": case["R"], "groups": 1, "rates": case["rates"]})
+    res = stage.e2e(["--freq=512:1100", "--power-stats", *case.get("opts", [])], files, capture_log=True)
+    if res["error"] or res["rc"] != 0 or res["events"] is None:
+        return ("power-stats-raises", f"acelyzer --power-stats failed on a well-formed {case['R']}-rank trace: rc={res['rc']} {res['error']}")
+    lines, _warn = parse_lines(res.get("log", ""))
+    by = {}
+    for e in res["events"]:
+        if e.get("ph") == "C" and e.get("name") == "Power":
+            by.setdefault(e["pid"], []).append((Q(e["ts"]), Q(e["args"]["Watts"])))
+    total, energy = Q(0), Q(0)
+    for pid, l in by.items():
+        for (t0, w0), (t1, _w1) in zip(l, l[1:]):
+            if t1 > t0:
+                total += t1 - t0
+                energy += w0 * (t1 - t0)
+    if total == 0:
+        return None
+    if not lines:
+        return ("power-stats-time-partition", f"e2e, {case['R']} ranks: no statistics line although {float(total)} us were sampled")
+    got_d = sum((Q(v["dur_total"]) for v in lines.values() if v), Q(0))
+    got_e = sum((Q(v["dur_total"]) * Q(v["avg_total"]) for v in lines.values() if v), Q(0))
+    tol_d = Q(2, 100) + total / 10 ** 9
+    if abs(got_d - total) > tol_d:
+        return ("power-stats-time-partition", f"e2e, {case['R']} ranks: the durations with and without kernels add up to "
+                f"{float(got_d)} but the ranks' Power counters of the exported trace sample {float(total)} in total")
+    tol_e = Q(1, 100) * total + Q(1, 100) * (energy / total + 1) * 2 + energy / 10 ** 6
+    if abs(got_e - energy) > tol_e:
+        return ("power-stats-weighted-average", f"e2e, {case['R']} ranks: avg_total x dur_total over both scenarios is "
+                f"{float(got_e)}, the exported Power counters carry {float(energy)} (sum of P x dt per rank)")
+    return None
+
+
 def run(ctx: Ctx):
     cases, reals = [], []
     only = os.environ.get("VERIF_C19_OPS")          # debugging aid: restrict to some ops, e.g. "pipe"
@@ -752,6 +790,15 @@ def run(ctx: Ctx):
             ctx.violation(v[0], v[1], case)
         ctx.case_done(case, nontrivial=True)
         ctx.count("op_e2e")
+    for i in range(ctx.n(6, 40)):
+        case = {"op": "e2e_multi", "seed": ctx.rng.randint(0, 10 ** 6), "R": ctx.rng.choice([2, 3]),
+                "rates": ctx.rng.choice([[200, 1000, 2000, 4000], [50, 3000], [1000, 2500, 6000]]),
+                "opts": ctx.rng.choice([[], ["-t"], ["--keep_prep"], ["-M"]])}
+        v = e2e_multi_eval(case)
+        if v:
+            ctx.violation(v[0], v[1], case)
+        ctx.case_done(case, nontrivial=True)
+        ctx.count("op_e2e_multi")
     ctx.extra["exhaustive"] = False
     ctx.extra["exhaustive_streams"] = "the four small grids named in `rule` are enumerated completely; the random streams are not"
     if ctx.search_mode or not ctx.driver or not ctx.driver.ok:
@@ -766,6 +813,8 @@ def run(ctx: Ctx):
 
 
 def shrink(ctx: Ctx, case, classifier):
+    if case.get("op") in ("e2e", "e2e_multi"):
+        return case
     key = {"merge": "periods", "msplit": "kernels", "split": "kernels", "stats": "segs", "pipe": "events"}[case["op"]]
 
     def bad(c):
